@@ -95,4 +95,15 @@ def topCandsHist (nm : Naming) (e : Eng) (pat : String) : List Nat × Bool :=
 /-- the rules of the live knowledge base, flags included, by position -/
 def Eng.krules (e : Eng) : List KRule := e.kb.rules.map (·.k)
 
+/-- the sub-goal candidates of a query on engine state `e`: `rule_could_prove_pattern` over the live `kb.get_rules()`,
+renumbered to the enabled rules the search model runs on (what `Driver/C09.lean` runs for every query of a history) -/
+def subCandsHist (nm : Naming) (e : Eng) (a : Atom) : List Nat :=
+  (subCandsPat (crulesN nm e.kb.rules) (patternOf nm a)).map (remap e.krules)
+
+/-- **a depth-first query on engine state `e`** (memoisation off): the search of `Model.lean` on the enabled live rules with
+the candidates of `topCandsHist` (possibly stale index; `ord` = the order the `HashSet` happens to yield) and `subCandsHist` -/
+def histQuery (nm : Naming) (e : Eng) (maxDepth maxSol : Nat) (goal : Atom) (ord : List Nat → List Nat) (st : Store) : QueryOut :=
+  query (enabledRules e.krules) .dfs maxDepth maxSol (subCandsHist nm e) goal
+    (ord ((topCandsHist nm e (patternOf nm goal)).1.map (remap e.krules))) st
+
 end C09
